@@ -220,6 +220,13 @@ func (t *Tags) RemoveAllTags() {
 func (t Tags) Clone() Tags {
 	clone := make([]Tag, len(t))
 	copy(clone, t)
+	for i := range clone {
+		// List values (eg the points of a path) are slices, which would
+		// otherwise be shared between the clone and the original.
+		if es, ok := clone[i].Value.AnyExpression.(Expressions); ok {
+			clone[i].Value.AnyExpression = append(Expressions{}, es...)
+		}
+	}
 	return clone
 }
 
